@@ -109,7 +109,7 @@ func c13FollowUp() rule.Rule {
 		Filters: []rule.FilterSpec{{Type: rule.ValueFilterType, LHS: "arch", Comparator: "=", RHS: "b64"}, {Type: rule.ValueFilterType, LHS: "uid", Comparator: "=", RHS: "root"}}}
 }
 
-var c13FollowUpRef = func() []byte { b, _ := rule.Build(c13FollowUp()); return b }()
+var c13FollowUpRef = func() []byte { b, _ := rule.Build(c13FollowUp()); return append([]byte(nil), b...) }()
 
 // c13Oracle runs one input through the function under test.
 func c13Oracle(c C13Case) (passedFirstStage bool, err error) {
@@ -140,8 +140,12 @@ func c13Oracle(c C13Case) (passedFirstStage bool, err error) {
 			// a refused rule leaves nothing behind: a plain rule that needs the tables (syscall by name, account by
 			// name, a key) is built afterwards and must come out as it did when the process started
 			// (a Build that never returns is reported by the hang watchdog, with this case)
-			if b, _ := rule.Build(c13FollowUp()); !bytes.Equal(b, c13FollowUpRef) {
+			b, _ := rule.Build(c13FollowUp())
+			if !bytes.Equal(b, c13FollowUpRef) {
 				return false, fmt.Errorf("after this refused rule (%v) the plain rule %q is built as %x, at process start it was %x", berr, c13FollowUpText, b, c13FollowUpRef)
+			}
+			for i := range b { // the bytes are the caller's
+				b[i] = 0xEE
 			}
 		}
 		if berr == nil {
